@@ -484,6 +484,13 @@ Definition full_stream (s : session) : list atom := stream (s_obj s) (s_len s).
 (* number of primitive writes of the sessions before index j, and the session's own count *)
 Definition nwrites (P : Z) (s : session) : nat := length (writes_of P s).
 
+(* how many writes of each session are among the first n writes of the workload *)
+Fixpoint split_n (P : Z) (ss : list session) (n : nat) : list (session * nat) :=
+  match ss with
+  | [] => []
+  | s :: r => (s, Nat.min n (nwrites P s)) :: split_n P r (n - nwrites P s)
+  end.
+
 (* run-length form of a content for printing: (object, first offset, count) *)
 Fixpoint segments (l : list atom) (acc : list (Z * Z * Z)) : list (Z * Z * Z) :=
   match l with
